@@ -152,4 +152,12 @@ def r16_6_encoding(repo: Repo, rep: Report):
     r11_3_dump_writer_reader(repo, rep)
 
 
-RULES = [r16_6_encoding, r16_1_core_recording, r16_2_subset_test, r16_3_ids_equal_asserted, r16_4_id_stability, r16_5_scope]
+def r16_7_refined_queries(repo: Repo, rep: Report):
+    """a refined query is dumped with the same named assertions as the original: refine() must carry the assertion ids
+    over (shared with C04/C11)"""
+    from hsa.rules.c04 import r04_2_refine_exact
+
+    r04_2_refine_exact(repo, rep)
+
+
+RULES = [r16_7_refined_queries, r16_6_encoding, r16_1_core_recording, r16_2_subset_test, r16_3_ids_equal_asserted, r16_4_id_stability, r16_5_scope]
